@@ -113,6 +113,10 @@ pub fn check_fit_result<T: Sc>(fo: &crate::adapt::FitOut<T>, case: &crate::gen::
 
 fn run<T: Sc>(case: &TrajCase) -> Check {
     let mut out = Outcome::default();
+    // the complex-valued companion problem (varpro's problems are generic over ComplexField)
+    if let Some(cc) = &case.cplx {
+        super::cplx::check(cc, super::cplx::Claim::Residuals, &mut out)?;
+    }
     let eps = effective_eps::<T>(case.base.eps);
     let mut nonzero_seen = false;
     let mut n_states = 0;
